@@ -390,7 +390,9 @@ class Jetscape(BaseStorer):
                 warnings.warn("The number of events is None.")
             elif self.num_events_ > 1:
                 for i in range(self.num_events_):
-                    event = self.num_output_per_event_[i, 0]
+                    # JETSCAPE numbers the events of a file 1, 2, ...; the
+                    # reader relies on it
+                    event = i + 1
                     num_out = self.num_output_per_event_[i, 1]
                     particle_output = np.asarray(list_of_particles[i])
 
@@ -404,7 +406,7 @@ class Jetscape(BaseStorer):
                             f_out, particle_output, fmt="%d %d %d %g %g %g %g"
                         )
             else:
-                event = 0
+                event = 1
                 num_out = self.num_output_per_event_[0][1]
                 particle_output = np.asarray(list_of_particles)
 
